@@ -169,31 +169,48 @@ func (e *Env) WaitLeader() *node.Node {
 	return e.S.Leader()
 }
 
-// Converge steps until every up node has applied everything the leader has
-// committed and no client task is pending.
+// Converge steps until nothing is in flight in the replicated log: the
+// leader has committed and applied everything it has appended (last log index
+// = commit index = applied index), every up node has applied up to that index,
+// and no client task is pending. Comparing states taken at such points
+// attributes an effect to the request that caused it: an entry appended by an
+// earlier (authorised, asynchronous) request can no longer land "during" the
+// next request.
 func (e *Env) Converge() bool {
 	return e.runUntil(func() bool {
 		ldr := e.S.Leader()
 		if ldr == nil {
 			return false
 		}
-		ci, err := ldr.Store.CommitIndex()
-		if err != nil {
-			return false
-		}
-		if ldr.Store.AppliedIndex() < ci {
+		ls := ldr.Store.VerifReadState()
+		if ls.LastLogIndex != ls.CommitIndex || ls.RaftAppliedIndex < ls.CommitIndex {
 			return false
 		}
 		for _, n := range e.S.Nodes[1:] {
-			if !n.Up {
+			if !n.Up || n == ldr {
 				continue
 			}
-			if n.Store.AppliedIndex() < ci {
+			ns := n.Store.VerifReadState()
+			if ns.RaftAppliedIndex < ls.CommitIndex || ns.LastLogIndex < ls.LastLogIndex {
 				return false
 			}
 		}
 		return e.S.PendingTasks() == 0
 	}, 30*time.Second)
+}
+
+// AwaitRow steps until the leader's database contains the given marker value
+// (bounded): used after an authorised request whose effect is asynchronous by
+// design (queued writes), so that the effect is attributed to that request.
+func (e *Env) AwaitRow(marker string, max time.Duration) bool {
+	return e.runUntil(func() bool {
+		ldr := e.S.Leader()
+		if ldr == nil {
+			return false
+		}
+		d, err := e.dump(ldr)
+		return err == nil && strings.Contains(d, marker)
+	}, max)
 }
 
 // State is what "no side effects" is judged on: per node the logical dump of
